@@ -40,14 +40,38 @@ def rename_id(d):
 _LATE = 0
 
 
-def one_tree(ctx, out, spec, objs, via_json, style="inplace"):
+def build_shared_late(spec, pool):
+    """explicit ids are unique at first ("tmp-k") and are then changed, node by node, to the (shared) ids of the description:
+    the tree is the one described, reached by set_data instead of add(data, data_id=)"""
+    cnt = itertools.count()
+    want = []
+
+    def rel(sp):
+        res = []
+        for lab, kids in sp:
+            if isinstance(lab, dict) and "did" in lab:
+                want.append(lab["did"])
+                lab = dict(lab, did=f"tmp-{next(cnt)}")
+            else:
+                want.append(None)
+            res.append((lab, rel(kids)))
+        return res
+
+    tree = adapter.build(rel(spec), pool)
+    for n, d in zip(list(tree), want):
+        if d is not None:
+            n.set_data(n.data, data_id=d, with_clones=False)
+    return tree
+
+
+def one_tree(ctx, out, spec, objs, via_json, style="inplace", shared_late=False):
     """style of the mapper pair: `inplace` (edits the dict it is given, returns it or None), `fresh` (returns a NEW dict),
     `renamed-id` (fresh, and stores the data_id under its own key `guid`; the inverse mapper writes item['data_id'] back —
     "mapper may add item['data_id']", Node.from_dict)"""
     pool = ctx.pool
     m = S.Mappers(pool)
-    tree = adapter.build(spec, pool)
-    case = dict(spec=spec, objs=objs, via_json=via_json, style=style)
+    tree = build_shared_late(spec, pool) if shared_late else adapter.build(spec, pool)
+    case = dict(spec=spec, objs=objs, via_json=via_json, style=style, shared_late=shared_late)
     global _LATE
     _LATE += 1
     if _LATE % 3 == 0:
@@ -164,8 +188,29 @@ def run(ctx):
             one_tree(ctx, out, spec, True, k % 2 == 0, style)
             out.count((repr(spec), True, style), True)
             out.dist["same_str_siblings"] += 1
-    # emptied trees
+    # ONE explicit data_id on nodes that hold DIFFERENT data objects (below different parents): the dict form carries every
+    # node's own data, so - unlike the native file format, which stores such occurrences as references - it reproduces each
+    for k, spec in enumerate([
+        [({"a": 0, "did": "X"}, [({"a": 1, "did": "Y"}, [])]), ({"a": 3, "did": "W"}, [({"a": 2, "did": "X"}, [])])],
+        [({"a": 0, "did": 77}, [({"a": 1, "did": 77}, [({"a": 2, "did": 77}, [])])]), ({"a": 3, "did": 5}, [({"a": 0, "did": 77}, [])])],
+        [({"a": 12, "did": "X"}, [({"a": 0, "did": "Y"}, [])]), ({"a": 0, "did": "Z"}, [({"a": 18, "did": "X"}, []), ({"a": 13, "did": "Y"}, [])])],
+        [(0, [({"a": 1, "did": "same"}, [])]), (2, [({"a": 3, "did": "same"}, [])]), (4, [({"a": 1, "did": "same"}, [])])],
+    ]):
+        objs = k == 2
+        for via_json in (False, True):
+            for style in ("inplace", "fresh"):
+                for late in (False, True):
+                    one_tree(ctx, out, spec, objs, via_json, style, shared_late=late)
+                    out.count((repr(spec), objs, via_json, style, late), True)
+                    out.dist["one_id_several_data_objects"] += 1
+    emptied_trees(out)
+    return out
+
+
+def emptied_trees(out, only=None):
     for how in ("clear", "remove"):
+        if only and how != only:
+            continue
         t = Tree("e")
         a = t.add("A")
         if how == "clear":
@@ -180,7 +225,6 @@ def run(ctx):
             r = "err:" + type(e).__name__
         if r != []:
             out.fail(dict(kind="emptied", how=how), f"to_dict_list() of a tree emptied by {how} = {r!r}, expected []")
-    return out
 
 
 def replay(ctx, rp):
@@ -189,6 +233,7 @@ def replay(ctx, rp):
     case = rp["case"]
     out = core.Outcome()
     if case.get("kind") == "emptied":
-        return dict(note="tree emptied by " + case["how"], property_holds=False)
-    one_tree(ctx, out, tuplify_d(case["spec"]), case["objs"], case["via_json"], case.get("style", "inplace"))
+        emptied_trees(out, case["how"])
+        return dict(note="tree emptied by " + case["how"], failures=[f["what"] for f in out.oracle_failures], property_holds=not out.oracle_failures)
+    one_tree(ctx, out, tuplify_d(case["spec"]), case["objs"], case["via_json"], case.get("style", "inplace"), shared_late=bool(case.get("shared_late")))
     return dict(failures=[f["what"] for f in out.oracle_failures[:4]], property_holds=not out.oracle_failures)
